@@ -563,6 +563,144 @@ fn main() {
         run.generate("all-stack-shapes-default-fill-parent", ns * per, false, 0.3, |ctx, idx, rng| {
             history::<IterTarget<Rgb565>>(ctx, rng, Conv::None, Some(shapes[(idx % ns) as usize].clone()));
         });
+        // virtual canvases: a fill_contiguous area far larger than the parent (65 536 columns and more,
+        // tens of thousands of rows above the visible part) whose colour stream positions in O(1); the
+        // offset of the first visible colour passes 2^31, 2^32 and more. The parent is a small window;
+        // every visible point must receive the colour of its row-major index in the area, streams may
+        // end inside the visible part (added after seeded `C03-12`: the offset computed in i32)
+        let nv = run.tier(40_000u64, 4_000_000u64);
+        run.generate("virtual-canvas", nv, false, 0.1, |ctx, idx, rng| {
+            #[derive(Clone)]
+            struct Virt {
+                i: u64,
+                len: u64,
+                salt: u64,
+            }
+            fn colour_at(i: u64, salt: u64) -> u16 {
+                (mix(i, salt) & 0xffff) as u16
+            }
+            impl Iterator for Virt {
+                type Item = Rgb565;
+                fn next(&mut self) -> Option<Rgb565> {
+                    if self.i >= self.len {
+                        return None;
+                    }
+                    let c = colour_at(self.i, self.salt);
+                    self.i += 1;
+                    Some(Rgb565::from(embedded_graphics::pixelcolor::raw::RawU16::new(c)))
+                }
+                fn nth(&mut self, n: usize) -> Option<Rgb565> {
+                    self.i = self.i.saturating_add(n as u64);
+                    self.next()
+                }
+                fn size_hint(&self) -> (usize, Option<usize>) {
+                    let r = self.len.saturating_sub(self.i) as usize;
+                    (r, Some(r))
+                }
+            }
+            let w: u64 = match rng.below(8) {
+                0 => 65_536,
+                1 => 46_341,
+                2 => 1 << rng.u32r(12, 20),
+                3 => rng.u32r(60_000, 70_000) as u64,
+                _ => rng.u32r(300, 1 << 20) as u64,
+            };
+            // offset of the first visible colour in the stream
+            let target: u64 = match rng.below(8) {
+                0 => (1u64 << 31) - rng.below(3 * w),
+                1 => (1u64 << 31) + rng.below(3 * w),
+                2 => (1u64 << 32) - rng.below(3 * w),
+                3 => (1u64 << 32) + rng.below(3 * w),
+                4 => rng.below(1 << 20),
+                5 => 1u64 << rng.u32r(20, 36),
+                _ => rng.below(1u64 << 36),
+            };
+            let rows_above = (target / w).min((1 << 20) as u64);
+            let cols_left = if w > 40 { rng.below(w - 20) } else { 0 };
+            let (ax, ay) = (rng.i32r(-2000, 2000), rng.i32r(-2000, 2000));
+            let (pw, ph) = (rng.u32r(1, 14), rng.u32r(1, 9));
+            let px0 = ax as i64 + cols_left as i64 + rng.i32r(-3, 3) as i64;
+            let py0 = ay as i64 + rows_above as i64;
+            let pbox = rect(px0 as i32, py0 as i32, pw, ph);
+            let rows_below = rng.below(4) as i64 - 1; // -1: the area ends inside the window
+            let ah = (rows_above as i64 + ph as i64 + rows_below).max(0) as u32;
+            let area = rect(ax, ay, w as u32, ah);
+            let clip = match rng.below(3) {
+                0 => pbox,
+                1 => rect(pbox.top_left.x + rng.i32r(-2, 3), pbox.top_left.y + rng.i32r(-2, 3), rng.u32r(0, pw + 3), rng.u32r(0, ph + 3)),
+                _ => rect(ax - 5, ay - 5, w as u32 + 10, ah + 10),
+            };
+            let total = w * ah as u64;
+            let salt = rng.next_u64();
+            let first_visible = rows_above * w + cols_left;
+            let len = match rng.below(4) {
+                0 => first_visible + rng.below(w * 2 + 3),
+                1 => total.saturating_sub(rng.below(w + 2)),
+                2 => total + 5,
+                _ => total,
+            };
+            let native = idx % 2 == 0;
+            let translated = rng.chance(1, 3);
+            let (tx, ty) = if translated { (rng.i32r(-300, 300), rng.i32r(-300, 300)) } else { (0, 0) };
+            let case = || format!("parent box {:?} ({} parent){}, clipped(&{:?}).fill_contiguous(&{:?}, stream of {} colours with O(1) nth); first visible colour at offset {}", rt(&pbox), if native { "native-fill" } else { "default-fill" }, if translated { format!(", translated(({},{}))", tx, ty) } else { String::new() }, rt(&clip), rt(&area), len, first_visible);
+            ctx.eval();
+            let stream = Virt { i: 0, len, salt };
+            // the adapters see coordinates shifted by -(tx,ty); the parent window is placed accordingly
+            let parent_box = rect(pbox.top_left.x + tx, pbox.top_left.y + ty, pw, ph);
+            let got: PixMap = if native {
+                let mut parent = NativeTarget::<Rgb565>::new(parent_box);
+                {
+                    let mut t = parent.translated(Point::new(tx, ty));
+                    let mut c = t.clipped(&clip);
+                    let _ = c.fill_contiguous(&area, stream);
+                }
+                if parent.log.out_of_box > 0 {
+                    ctx.violation("virtual-canvas|pixel-outside-parent-box", case, || format!("{} items outside the parent's box reached it", parent.log.out_of_box));
+                    return;
+                }
+                parent.log.map.clone()
+            } else {
+                let mut parent = IterTarget::<Rgb565>::new(parent_box);
+                {
+                    let mut t = parent.translated(Point::new(tx, ty));
+                    let mut c = t.clipped(&clip);
+                    let _ = c.fill_contiguous(&area, stream);
+                }
+                if parent.log.out_of_box > 0 {
+                    ctx.violation("virtual-canvas|pixel-outside-parent-box", case, || format!("{} items outside the parent's box reached it", parent.log.out_of_box));
+                    return;
+                }
+                parent.log.map.clone()
+            };
+            let mut want = PixMap::new();
+            let vis = isect(&r4(&pbox), &r4(&clip)).and_then(|v| isect(&v, &r4(&area)));
+            if let Some(v) = vis {
+                for y in v.1..v.1 + v.3 {
+                    for x in v.0..v.0 + v.2 {
+                        let i = (y - ay as i64) as u64 * w + (x - ax as i64) as u64;
+                        if i < len {
+                            want.set(x as i32 + tx, y as i32 + ty, colour_at(i, salt) as u32);
+                        }
+                    }
+                }
+            }
+            if !got.same(&want) {
+                let d = got.first_diff(&want);
+                ctx.violation(format!("virtual-canvas|parent-map-differs-from-model|offset>={}", if first_visible >= 1 << 32 { "2^32" } else if first_visible >= 1 << 31 { "2^31" } else { "0" }), case, || format!("first difference (x, y, got, expected): {:?}; {} pixels set, {} expected", d, got.len(), want.len()));
+                return;
+            }
+            if !want.is_empty() {
+                ctx.nontrivial(mix(mix(w, first_visible), len));
+            }
+            ctx.count("virtual_canvas_fills", 1);
+            ctx.max("max_offset_of_first_visible_colour", first_visible);
+            if first_visible >= 1 << 31 {
+                ctx.count("virtual_canvas_fills_with_offset_beyond_2^31", 1);
+            }
+            if ctx.wants_sample() {
+                ctx.sample(|| jobj! {"case" => case(), "pixels_expected" => want.len() as u64});
+            }
+        });
         let nc = run.tier(40_000u64, 20_000_000u64);
         run.generate("color-converted", nc, false, 0.3, |ctx, idx, rng| {
             let conv = if idx % 2 == 0 { Conv::Outer } else { Conv::Inner };
